@@ -69,6 +69,8 @@ def plan(prop):
         obs.append((core, lambda ctx: co.ob_route_level_gates(ctx, 2, 1, multi_in_tour=True)))
         obs.append((core, lambda ctx: co.ob_route_level_gates(ctx, 0, 1, n_places=2)))
     if prop == 'C01':
+        for k in ((0, 1, 2) if Q else (0, 1, 2, 3)):
+            obs.append((core, lambda ctx, k=k: co.ob_tour_order_gate(ctx, k)))
         for n in (1, 2, 3):
             obs.append((core, lambda ctx, n=n: co.ob_evaluate_with_constraints(ctx, n)))
     if prop == 'C03':
